@@ -1133,6 +1133,50 @@ theorem entryFinish_spec (cfg : ECfg) (sB : ESt) (F : EFrame) (rest : List EFram
   refine ⟨?_, hs.out, hs.over, hs.recordIdx, hs.filt, hs.enabled, W, hW, hWe⟩
   first | rfl | trivial
 
+/-- the end of the entry hook when no asynchronous event is pending, as an equation -/
+theorem entryFinish_eq (cfg : ECfg) (sB : ESt) (F : EFrame) (rest : List EFrame) (o : Obs)
+    (hp : ∀ e ∈ sB.pend, e.idx < ASYNC_IDX) (htag : watchTag cfg rest.length < ASYNC_IDX) :
+    entryFinish cfg sB F rest o = { watchStep cfg sB F.b rest.length o with frames := F :: rest } := by
+  obtain ⟨hs, W, hW, hWe⟩ := watchStep_spec cfg sB F.b rest.length o
+  have hna : hasAsync (watchStep cfg sB F.b rest.length o).pend = false := by
+    apply hasAsync_false
+    intro e he
+    rw [hW] at he
+    simp only [List.mem_append] at he
+    rcases he with he | he
+    · exact hp e he
+    · rw [(hWe e he).2.1]; exact htag
+  unfold entryFinish
+  simp only [hna, Bool.false_eq_true, ↓reduceIte]
+
+/-- the exit hook of a call that passes the time filter: record_trace_data -/
+theorem exitFinish_record (cfg : ECfg) (sB : ESt) (f f1 : EFrame) (rest : List EFrame) (tf : Nat) (retv : Bool) (o : Obs)
+    (hc : f.b.endT - f.b.start > tf) (hcm : cfg.base.callerMode = false) :
+    exitFinish cfg sB f f1 rest tf retv o =
+      ({ watchStep cfg sB f1.b rest.length o with frames := f1 :: rest } : ESt).recorded
+        (recordTraceE cfg retv (f1 :: rest) (watchStep cfg sB f1.b rest.length o).pend) := by
+  unfold exitFinish
+  simp [hc, hcm]
+
+theorem watchStep_hookTime (cfg : ECfg) (s : ESt) (b b' : Frame) (ri : Nat) (o : Obs) (h : hookTime b = hookTime b') :
+    watchStep cfg s b ri o = watchStep cfg s b' ri o := by
+  unfold watchStep saveWatch
+  simp only [h]
+
+theorem markToE_start (fs : List EFrame) : ∀ g ∈ markToE fs, ∃ g' ∈ fs, g.b.start = g'.b.start := by
+  induction fs with
+  | nil => simp [markToE]
+  | cons f r ih =>
+    intro g hg
+    simp only [markToE] at hg
+    split at hg
+    · exact ⟨g, hg, rfl⟩
+    · simp only [List.mem_cons] at hg
+      rcases hg with rfl | hg
+      · exact ⟨f, by simp, rfl⟩
+      · obtain ⟨g', h1, h2⟩ := ih g hg
+        exact ⟨g', by simp [h1], h2⟩
+
 theorem entryFinish_good (cfg : ECfg) (sB : ESt) (F : EFrame) (rest : List EFrame) (o : Obs) (d : Nat)
     (hlen : rest.length = d) (hmax : d + 1 < ASYNC_IDX)
     (h1 : sB.over = 0) (h3 : sB.recordIdx = d + 1) (h4 : sB.enabled = true) (h5 : sB.filt.inCount = 0)
